@@ -1,0 +1,98 @@
+//go:build verif
+
+package rosmar
+
+import (
+	"sync"
+	"sync/atomic"
+)
+
+// Verification hooks. Only compiled with `-tags verif`; used by the external
+// model-based verification harness to observe and schedule critical sections.
+
+type verifHookFn func(site string, args ...any)
+
+var verifHook atomic.Pointer[verifHookFn]
+
+// VerifSetHook installs (or, with nil, removes) the hook called at every verifPoint.
+func VerifSetHook(f func(site string, args ...any)) {
+	if f == nil {
+		verifHook.Store(nil)
+		return
+	}
+	fn := verifHookFn(f)
+	verifHook.Store(&fn)
+}
+
+func verifPoint(site string, args ...any) {
+	if h := verifHook.Load(); h != nil {
+		(*h)(site, args...)
+	}
+}
+
+type verifClock struct{ f func() uint64 }
+
+func (c *verifClock) getTime() uint64 { return c.f() }
+
+// VerifNewHLC creates a hybrid logical clock reading physical time from f.
+func VerifNewHLC(last uint64, f func() uint64) *HybridLogicalClock {
+	return &HybridLogicalClock{highestTime: last, clock: &verifClock{f: f}}
+}
+
+// VerifSetGlobalClock replaces the physical clock of the process-global HLC.
+func VerifSetGlobalClock(f func() uint64) {
+	hlc.mutex.Lock()
+	defer hlc.mutex.Unlock()
+	if f == nil {
+		hlc.clock = &systemClock{}
+	} else {
+		hlc.clock = &verifClock{f: f}
+	}
+}
+
+// VerifResetGlobalHLC simulates a fresh process: the global clock forgets its high-water mark.
+func VerifResetGlobalHLC() {
+	hlc.mutex.Lock()
+	defer hlc.mutex.Unlock()
+	hlc.highestTime = 0
+}
+
+// VerifGlobalHLCHighest returns the global clock's high-water mark.
+func VerifGlobalHLCHighest() uint64 {
+	hlc.mutex.Lock()
+	defer hlc.mutex.Unlock()
+	return hlc.highestTime
+}
+
+// VerifExpiryState reports whether the bucket's expiry timer is armed and for when.
+func VerifExpiryState(b *Bucket) (timerSet bool, next uint32) {
+	b.expManager.mutex.Lock()
+	defer b.expManager.mutex.Unlock()
+	return b.expManager.timer != nil, b.expManager._getNext()
+}
+
+// VerifRegistrySnapshot returns a copy of the registry's reference counts and the registered names.
+func VerifRegistrySnapshot() (counts map[string]uint, names []string) {
+	cluster.lock.Lock()
+	defer cluster.lock.Unlock()
+	counts = make(map[string]uint, len(cluster.bucketCount))
+	for k, v := range cluster.bucketCount {
+		counts[k] = v
+	}
+	for k := range cluster.buckets {
+		names = append(names, k)
+	}
+	return
+}
+
+// VerifActiveFeedCount returns the number of feed goroutines currently running.
+func VerifActiveFeedCount() int32 { return atomic.LoadInt32(&activeFeedCount) }
+
+// VerifHandleClosed reports the handle's closed flag.
+func VerifHandleClosed(b *Bucket) bool {
+	b.mutex.Lock()
+	defer b.mutex.Unlock()
+	return b.closed
+}
+
+var _ sync.Locker = (*sync.Mutex)(nil)
